@@ -102,6 +102,7 @@ func h3simChild(w *bufio.Writer, seed uint64, n int) {
 		lossRng := r.Fork()
 		var lossMu sync.Mutex
 		conc := r.Range(1, 4)
+		disableCompression := r.Chance(1, 4)
 		var batch []*h3eSpec
 		for k := 0; k < conc; k++ {
 			id++
@@ -117,6 +118,7 @@ func h3simChild(w *bufio.Writer, seed uint64, n int) {
 			if len(s.respBody) > lim {
 				s.respBody = s.respBody[:lim]
 				s.respChunks = h3eChunks(r, len(s.respBody))
+				s.regz()
 			}
 			wd.mu.Lock()
 			wd.specs[id] = s
@@ -163,9 +165,10 @@ func h3simChild(w *bufio.Writer, seed uint64, n int) {
 				srv.ServeListener(e.Ln)
 			}()
 			tr := &http3.Transport{
-				TLSClientConfig: e.CliTLS.Clone(),
-				QUICConfig:      &quic.Config{},
-				Logger:          nil,
+				TLSClientConfig:    e.CliTLS.Clone(),
+				QUICConfig:         &quic.Config{},
+				Logger:             nil,
+				DisableCompression: disableCompression,
 				Dial: func(ctx context.Context, _ string, tlsCfg *tls.Config, cfg *quic.Config) (*quic.Conn, error) {
 					if e.CliUTr != nil {
 						return e.CliUTr.Dial(ctx, e.SrvAddr, tlsCfg, cfg)
